@@ -77,6 +77,8 @@ impl MEdit {
             MEdit::SetClimate { .. } => "edit.set_climate",
             MEdit::SetMeta { .. } => "edit.set_meta",
             MEdit::PlaceWindow { .. } => "edit.place_window",
+            MEdit::ScaleNumber { factor, .. } if *factor >= 1.0e6 => "model.number_huge",
+            MEdit::ScaleNumber { factor, .. } if *factor <= 1.0e-6 => "model.number_tiny",
             MEdit::SetValue { .. } | MEdit::ScaleNumber { .. } => "variant.value",
             MEdit::SetKey { .. } => "model.key_added",
             MEdit::RenameAllNames => "variant.names",
@@ -97,7 +99,8 @@ impl MEdit {
             | MEdit::IdRedirected { ptr, .. }
             | MEdit::NumberZeroed { ptr }
             | MEdit::NumberNegated { ptr }
-            | MEdit::NumberNudged { ptr, .. } => ptr.clone(),
+            | MEdit::NumberNudged { ptr, .. }
+            | MEdit::ScaleNumber { ptr, .. } => ptr.clone(),
             _ => String::new(),
         };
         generic(&p)
@@ -645,6 +648,11 @@ pub fn enumerate_single(m: &Value) -> Vec<MEdit> {
                 if n.is_f64() {
                     out.push(MEdit::NumberNudged { ptr: ptr.clone(), delta: -0.000001 });
                     out.push(MEdit::NumberNudged { ptr: ptr.clone(), delta: 0.000001 });
+                    // magnitudes: a value a billion times larger / smaller (still finite in f32)
+                    if n.as_f64() != Some(0.0) {
+                        out.push(MEdit::ScaleNumber { ptr: ptr.clone(), factor: 1.0e9 });
+                        out.push(MEdit::ScaleNumber { ptr: ptr.clone(), factor: 1.0e-9 });
+                    }
                 }
             }
             _ => {}
